@@ -29,6 +29,7 @@ type PStmt struct {
 	Text  string  `json:"text,omitempty"` // raw text / equ body / numeric jump target
 	Num   bool    `json:"num,omitempty"`  // jmp: numeric target (N) instead of a label
 	Mode  int     `json:"mode,omitempty"` // filled in by the renderer: mode in force
+	Tag   string  `json:"tag,omitempty"`  // what the statement is there to observe (C05/C06 signatures)
 }
 
 type Prog struct {
@@ -64,10 +65,16 @@ func (s *PStmt) Line() string {
 		}
 		return "\t" + map[int]string{1: "DB", 2: "DW", 4: "DD"}[s.W] + " " + strings.Join(t, ",")
 	case "resb":
+		if s.Text != "" {
+			return "\tRESB " + s.Text
+		}
 		return fmt.Sprintf("\tRESB %d", s.N)
 	case "resbto":
 		return fmt.Sprintf("\tRESB 0x%x-$", s.N)
 	case "alignb":
+		if s.Text != "" {
+			return "\tALIGNB " + s.Text
+		}
 		return fmt.Sprintf("\tALIGNB %d", s.N)
 	case "label":
 		return s.Label + ":"
@@ -234,7 +241,7 @@ func (p *Prog) DoWalk(out []byte) *Walk {
 			case "resbto":
 				cnt = s.N - (w.Origin + int64(off))
 			case "alignb":
-				cnt = (s.N - (int64(off) % s.N)) % s.N
+				cnt = (s.N - ((w.Origin + int64(off)) % s.N)) % s.N // "bring the current ADDRESS to a multiple of n"
 			}
 			if cnt < 0 {
 				return fail(i, "length", fmt.Sprintf("statement %d: negative reservation", i))
